@@ -20,7 +20,7 @@ func init() {
 }
 
 func c17Jobs(tier string, seed int64) []string {
-	jobs := []string{"str:0", "str:1", "str:2", "list:1", "key:1", "val:1", "two:1", "lazy:1", "nest:1", "mixed:0", "reps:1"}
+	jobs := []string{"str:0", "str:1", "str:2", "list:1", "key:1", "val:1", "two:1", "lazy:1", "nest:1", "mixed:0", "reps:1", "bins:1", "funcmap:1"}
 	if tier == "thorough" {
 		jobs = append(jobs, "str:3", "list:2", "key:2", "val:2", "nest:2", "deep:1")
 	}
@@ -72,6 +72,8 @@ func treeEq(x *xnode, j *jnode) bool {
 			return false
 		}
 		return runesEq(x.str, j.str)
+	case '*': // any scalar (text not modelled, e.g. formatted bin labels)
+		return j.kind == 's'
 	case 'a':
 		if j.kind != 'a' || len(j.items) != len(x.items) {
 			return false
@@ -194,6 +196,39 @@ func c17Run(job string) {
 			&xnode{kind: 'o', keys: [][]rune{ka, kb}, items: []*xnode{xstr("1"), xs(rs)}},
 			&xnode{kind: 'o', keys: [][]rune{ka}, items: []*xnode{xs(rs)}},
 			&xnode{kind: 'o', keys: [][]rune{ka}, items: []*xnode{xs(rs)}})
+	case "bins":
+		// maps whose Size() differs from the entries they iterate (open-ended bin descriptions)
+		rs, sv := S("r")
+		f := mustGen(fg, `{b:[0.5,1.5].binning(0,1,2,x->x,x->1),s:s}`, "s")
+		r := eval(f, sv)
+		sym.Assert(r.ok(), "build-bins")
+		if !r.ok() {
+			return
+		}
+		v = r.v
+		anyS := &xnode{kind: '*'}
+		kstr, kmin, kmax := []rune("str"), []rune("min"), []rune("max")
+		d0 := &xnode{kind: 'o', keys: [][]rune{kstr, kmax}, items: []*xnode{anyS, xstr("0")}}
+		d1 := &xnode{kind: 'o', keys: [][]rune{kstr, kmin, kmax}, items: []*xnode{anyS, xstr("0"), xstr("1")}}
+		d2 := &xnode{kind: 'o', keys: [][]rune{kstr, kmin, kmax}, items: []*xnode{anyS, xstr("1"), xstr("2")}}
+		d3 := &xnode{kind: 'o', keys: [][]rune{kstr, kmin}, items: []*xnode{anyS, xstr("2")}}
+		b := &xnode{kind: 'o', keys: [][]rune{[]rune("descr"), []rune("values")},
+			items: []*xnode{xa(d0, d1, d2, d3), xa(xstr("0"), xstr("1"), xstr("1"), xstr("0"))}}
+		want = &xnode{kind: 'o', keys: [][]rune{[]rune("b"), []rune("s")}, items: []*xnode{b, xs(rs)}}
+	case "funcmap":
+		// host-provided function map with a declared key that is absent for this value
+		rs, sv := S("r")
+		mf := value.NewFuncMapFactory(func(s value.String, key string) (value.Value, bool) {
+			switch key {
+			case "text":
+				return s, true
+			case "len":
+				return value.Int(len(key)), true
+			}
+			return nil, false
+		}, "text", "missing", "len")
+		v = value.NewList(mf.Create(sv.(value.String)), value.String("x"))
+		want = xa(&xnode{kind: 'o', keys: [][]rune{[]rune("text"), []rune("len")}, items: []*xnode{xs(rs), xstr("3")}}, xstr("x"))
 	case "deep":
 		rs, sv := S("r")
 		f := mustGen(fg, `[[[[[s]]]],{a:{b:{c:{d:s}}}}]`, "s")
